@@ -371,6 +371,7 @@ type c13Univ struct {
 	busy     map[*c13Inst]bool
 	loops    int    // qualifying loops met (vacuity)
 	site     string // where the (last) qualifying loop is
+	early    string // a loop over the certificates that an iteration can leave successfully
 }
 
 // gateCut: the edges of in.fn that establish the gate for the element(s) el — by their label, or because a module
@@ -403,6 +404,13 @@ func (u *c13Univ) iterGated(in *c13Inst, l *loopRef) bool {
 	w := u.c.W
 	fi := w.Info(in.fn)
 	el := c13ElemPrefix(l)
+	// An iteration ends by failing or by going on to the next element, never by succeeding: a successful return (or a
+	// break that leads to one) from inside the loop — even behind the gate for THIS element, `if cert.IsCA { return nil }`
+	// — leaves the remaining certificates of the file unjudged (seeded change C03-6).
+	if c13ReturnsError(in.fn) && fi.successWitness(Mode{Kind: mErr}, []state{{l.Body.Index, 0, -1}}, backEdges(l.Header)) != nil {
+		u.early = w.InstrPos(blockTerm(l.Header))
+		return false
+	}
 	if gc := u.gateCut(in, el); gc.n >= u.minEdges && !fi.reachHit([]state{{l.Body.Index, 0, -1}}, gc.cut, map[int]bool{l.Header.Index: true}) &&
 		c13Witness(fi, []state{{l.Body.Index, 0, -1}}, gc, backEdges(l.Header)) == nil {
 		return true
